@@ -296,6 +296,8 @@ struct Ledger {
     last_judged_is_req: Option<bool>,
     /// the most recent authenticated request without USE-CANDIDATE delivered to A (source, bytes)
     last_plain_auth_req: Option<(SocketAddr, Vec<u8>)>,
+    /// sources of responses that matched an outstanding transaction of A
+    matched_src: BTreeSet<SocketAddr>,
     tampered_uc_delivered: u64,
     auth_req_delivered: u64,
     unmatched_resp_delivered: u64,
@@ -406,6 +408,7 @@ impl Monitor for IceMon {
                     t.done = true;
                 }
                 let (dst, uc) = (t.dst, t.uc);
+                l.matched_src.insert(from);
                 if v.is_success() {
                     l.matched_any = true;
                     l.matched_dst.insert(dst);
@@ -753,8 +756,10 @@ impl Judge<'_> {
             let l = self.led.lock().unwrap();
             let mut broken: Vec<(&'static str, String)> = Vec::new();
             for c in o.cands.iter() {
-                if !self.signalled.contains(c) && !l.auth_src.contains(c) {
-                    broken.push(("candidate-added", format!("remote candidate {} was neither signalled nor the source of an authenticated request", self.names.n(*c))));
+                // (the statement allows a response that matches an outstanding transaction to be honoured, so what an
+                // agent learns from the source of such a response is not judged)
+                if !self.signalled.contains(c) && !l.auth_src.contains(c) && !l.matched_src.contains(c) {
+                    broken.push(("candidate-added", format!("remote candidate {} was neither signalled nor the source of an authenticated request or of a response matching an outstanding transaction", self.names.n(*c))));
                 }
             }
             if let Some(s) = o.sel {
